@@ -213,6 +213,22 @@ def run_case(c):
                     want = float(nb)
                 if abs(integ - want) > 2e-3 * nb:
                     bad("smearing_normalisation", "smearing DOS (%s) integrates to %.6f, expected %.6f" % (c["smear"], integ, want), smear=c["smear"], **feat)
+            if not tet and c["smear"] == "Cauchy":
+                # the projected DOS with the same (Cauchy) smearing function, through the class that the API wraps: additivity and its defining sum
+                from phonopy.phonon.dos import ProjectedDos as PD
+
+                for xyz in (False, True):
+                    p_ = PD(ph.mesh, sigma=sigma, xyz_projection=xyz)
+                    p_.set_smearing_function("Cauchy")
+                    p_.set_draw_area(kw["freq_min"], kw["freq_max"], kw["freq_pitch"])
+                    p_.run()
+                    pdc = np.array(p_.projected_dos)
+                    obs["n_additivity_cauchy"] = obs.get("n_additivity_cauchy", 0) + 1
+                    if (pdc < -1e-10).any():
+                        bad("negative_pdos", "projected DOS (Cauchy) negative: %.3e" % pdc.min(), tet=tet, xyz=xyz, smear="Cauchy", **feat)
+                    e = np.abs(pdc.sum(axis=0) - tot).max() if pdc.shape[1] == len(tot) else np.inf
+                    if e > 1e-9 * max(tot.max(), 1e-12):
+                        bad("pdos_additivity", "Cauchy smearing: sum of %s PDOS differs from the total DOS by %.3e (max %.3e)" % ("xyz" if xyz else "atom", e, tot.max()), tet=tet, xyz=xyz, smear="Cauchy", **feat)
             for xyz in (False, True):
                 if tet:
                     ph.run_projected_dos(use_tetrahedron_method=True, xyz_projection=xyz, **kw)
